@@ -931,4 +931,18 @@ def fExJunk : Str := "===\nj\n===\nx\n---\n\n(a) (b)\n".toList
 theorem idempotent_fails_two_toplevel_expectation :
     updateFile fxAll [] orcA (updateFile fxAll [] orcA fExJunk) ≠ updateFile fxAll [] orcA fExJunk := by decide +kernel
 
+/-- Multi-language tests (`:language(p)` / `:language(q)` with DIFFERENT renderings per language) through the general
+theorems: the update writes the test ONCE with the first language's rendering; the file read back has one test
+with both language lines; the second update is the identity (no fail-fast, so the mismatch under `q` does not
+stop the run).  With `:fail-fast` the run stops at `q` and nothing is written (first conjunct of the last line). -/
+def fExL : Str := "===\nml\n:language(p)\n:language(q)\n===\nc\n---\n\n(old)\n".toList
+def fExLff : Str := "===\nml\n:language(p)\n:language(q)\n:fail-fast\n===\nc\n---\n\n(old)\n".toList
+def orcL : Oracle := fun l _ =>
+  if l == ['q'] then some { sexpFields := "(other)".toList, sexpPlain := "(other)".toList, cst := [], hasError := false }
+  else some { sexpFields := sxSource, sexpPlain := sxSource, cst := [], hasError := false }
+example : (parseFile [] fExL).all entryShapeB = true ∧ (parseFile [] fExL).all entryExpectB = true ∧
+    (parseFile [] (updateFile fxAll [] orcL fExL)).map (fun e => (e.attrs.languages, e.output)) = [([['p'], ['q']], sxSource)] ∧
+    updateFile fxAll [] orcL (updateFile fxAll [] orcL fExL) = updateFile fxAll [] orcL fExL ∧
+    updateFile fxAll [] orcL fExLff = fExLff := by decide +kernel
+
 end TsVerif.C20
